@@ -116,7 +116,7 @@ def run(f, fixture, rep, cfg, tier):
     rep.rule("R10", "a failed sign leaves a well-formed package (C10.R2); cpio headers are well-formed (C07.R2)")
     if cfg != "no-default":
         rep.include("c10", f, fixture, cfg, tier, "R10", "mutators change the package only after their fallible steps", only_rules={"R2"}, floor=4)
-    rep.include("c07", f, fixture, cfg, tier, "R10", "cpio header fields, name size and padding", only_rules={"R2"}, floor=5)
+    rep.include("c07", f, fixture, cfg, tier, "R10", "cpio header fields, name size and padding; codec table", only_rules={"R2", "R6"}, floor=5)
     # header names (DIRNAMES[DIRINDEXES[i]] + BASENAMES[i]) equal the archive names: rests on the builder's field -> tag table (C06.R2)
     rep.include("c06", f, fixture, cfg, tier, "R10", "file name columns of the header", only_rules={"R2"}, floor=50)
 
